@@ -3,6 +3,7 @@ package checks
 import (
 	"context"
 	"fmt"
+	"os"
 	"sort"
 	"strings"
 	"sync"
@@ -115,6 +116,9 @@ func C02(o *core.Options) int {
 			models = append(models, m)
 		}
 	}
+	if os.Getenv("VERIF_ONLY_FLAT") != "" { // development aid
+		models = nil
+	}
 	r.Set("models_in_family", len(models))
 	nodes := e2.RequestNodes(ref.DefaultUniverse())
 	subjects := []string{"user:a", "user:*", "group:1#member", "doc:2#r1"}
@@ -127,7 +131,7 @@ func C02(o *core.Options) int {
 		return es
 	}
 	tsCache := sync.Map{}
-	e2.Sweep(r, models, e2.SweepOpts{K: 2, ServerOpts: []server.OpenFGAServiceV1Option{server.WithRequestTimeout(0)}}, func(env *e2.Env, w *ref.World) {
+	body := func(env *e2.Env, w *ref.World) {
 		if len(w.Tuples) == 0 {
 			return
 		}
@@ -276,7 +280,22 @@ func C02(o *core.Options) int {
 				}
 			}
 		}
+	}
+	so := e2.SweepOpts{K: 2, ServerOpts: []server.OpenFGAServiceV1Option{server.WithRequestTimeout(0)}}
+	e2.Sweep(r, models, so, body)
+	// nested set operators over one object (ref.FlatFamily), up to 4 tuples
+	so.K, so.U = 4, ref.FlatUniverse()
+	nodes = e2.RequestNodes(so.U)
+	flat := e2.ValidModels(ref.FlatFamily())
+	if !o.Thorough() {
+		flat = ref.EveryNth(flat, 2, int(o.Seed))
+	}
+	r.Set("flat_family_models", len(flat))
+	e2.Sweep(r, flat, so, func(env *e2.Env, w *ref.World) {
+		r.Count("worlds_flat_family", 1)
+		body(env, w)
 	})
+	nodes = e2.RequestNodes(ref.DefaultUniverse())
 	c02ListObjects(o, r, models)
 	c02Reducers(o, r)
 	return r.Finish()
